@@ -369,7 +369,7 @@ def tonp_h(h, ring, cplx=False):
         return tonp(h["m"], ring, cplx)
     dt = h["dt"]
     if dt in ("int64", "int32"):
-        return np.array([[int(F(x)) for x in r] for r in h["m"]], dtype=DTYPES[dt])
+        return np.array([[int(CF.of(dec1(x)).re) for x in r] for r in h["m"]], dtype=DTYPES[dt])
     a = np.array([[complex(CF.of(dec1(x))) for x in r] for r in h["m"]], dtype=complex)
     return a if dt == "complex128" or cplx else a.real.astype(np.float64)
 
